@@ -21,7 +21,82 @@ pub fn cp(x: f32, y: f32, t: Option<PathType>) -> PathControlPoint {
 
 /// 1..=12 points, every type layout (including a typed last point), integer and fractional
 /// coordinates, duplicates, collinear runs, occasionally huge coordinates.
+/// Perfect-curve segments at the edges of the arc construction: very flat arcs (sagitta below the
+/// flattening tolerance, so the sub-point count bottoms out) and almost collinear triples far from
+/// the slider start (the determinant of the differences is a small integer while the circumcircle
+/// terms, built from the large absolute coordinates, cancel in single precision).
+fn edge_arc(r: &mut Rng) -> Vec<PathControlPoint> {
+    let perfect = Some(PathType::PERFECT_CURVE);
+    let mut pts = Vec::new();
+    if r.chance(1, 2) {
+        let chord = 1.0 + r.f() * 60.0;
+        let sag = [0.001, 0.01, 0.05, 0.09, 0.2][r.below(5)] * (0.5 + r.f());
+        let th = r.f() * std::f64::consts::TAU;
+        let (c, s) = (th.cos(), th.sin());
+        let rot = |x: f64, y: f64| ((x * c - y * s) as f32, (x * s + y * c) as f32);
+        let (bx, by) = rot(chord / 2.0 + (r.f() - 0.5) * chord * 0.3, sag);
+        let (cx, cy) = rot(chord, 0.0);
+        pts.push(cp(0.0, 0.0, perfect));
+        pts.push(cp(bx, by, None));
+        pts.push(cp(cx, cy, None));
+        if r.chance(1, 3) {
+            // integer form: (0,0) (10,1) (21,2)
+            let k = 5 + r.below(20) as i32;
+            pts[1].pos = Pos::new(k as f32, 1.0);
+            pts[2].pos = Pos::new((2 * k + 1) as f32, 2.0);
+        }
+    } else {
+        let far = |r: &mut Rng| {
+            let sign = if r.chance(1, 2) { 1.0 } else { -1.0 };
+            sign * r.range(50_000, 250_000) as f32
+        };
+        let (x, y) = (far(r), far(r));
+        // differences u = (p, q) and w = m u + c (-t, s) with p s + q t = gcd: the determinant of the
+        // differences is exactly c gcd, a small integer
+        let (pi, qi) = (r.range(500, 1500), r.range(50, 300));
+        let (g, s, t) = egcd(pi, qi);
+        let m = 2 + r.below(2) as i64;
+        let c = [-3i64, -2, -1, 1, 2, 3][r.below(6)];
+        let _ = g;
+        let (p, q) = (pi as f32, qi as f32);
+        let (e1, e2) = ((m * pi - c * t) as f32 - 2.0 * p, (m * qi + c * s) as f32 - 2.0 * q);
+        if r.chance(1, 2) {
+            pts.push(cp(0.0, 0.0, Some(PathType::LINEAR)));
+            pts.push(cp(x, y, perfect));
+        } else {
+            // the whole path far away: the first point is the origin by convention, so shift the triple
+            pts.push(cp(0.0, 0.0, perfect));
+            pts.push(cp(p, q, None));
+            pts.push(cp(2.0 * p + e1, 2.0 * q + e2, None));
+            let off = Pos::new(x, y);
+            for pt in pts.iter_mut().skip(1) {
+                pt.pos += off;
+            }
+            return pts;
+        }
+        pts.push(cp(x + p, y + q, None));
+        pts.push(cp(x + 2.0 * p + e1, y + 2.0 * q + e2, None));
+    }
+    if r.chance(1, 4) {
+        pts.push(cp(r.range(-200, 500) as f32, r.range(-200, 400) as f32, Some(TYPES[r.below(4)])));
+        pts.push(cp(r.range(-200, 500) as f32, r.range(-200, 400) as f32, None));
+    }
+    pts
+}
+
+fn egcd(a: i64, b: i64) -> (i64, i64, i64) {
+    if b == 0 {
+        (a, 1, 0)
+    } else {
+        let (g, s, t) = egcd(b, a % b);
+        (g, t, s - (a / b) * t)
+    }
+}
+
 pub fn random_points(r: &mut Rng) -> Vec<PathControlPoint> {
+    if r.chance(1, 10) {
+        return edge_arc(r);
+    }
     let np = match r.below(8) {
         0 => 1,
         1 => 2,
